@@ -1154,9 +1154,14 @@ func (b *BaseStore) pubSubChanListener(topic iface.PubSubTopic) error {
 
 			b.logger.Debug(fmt.Sprintf("Received %d heads for %s:", len(msg.Heads), b.address))
 
-			entries := make([]ipfslog.Entry, len(msg.Heads))
-			for i, head := range msg.Heads {
-				entries[i] = head
+			entries := make([]ipfslog.Entry, 0, len(msg.Heads))
+			for _, head := range msg.Heads {
+				if head == nil {
+					// a decoded null head must not be boxed: it would be a non-nil interface holding a nil pointer
+					continue
+				}
+
+				entries = append(entries, head)
 			}
 
 			if err := b.Sync(b.ctx, entries); err != nil {
